@@ -11,8 +11,8 @@ DATA = [0, 1, 5, 7, 13, 255, 0x7FFFFFFF, 0x80000000, 0xFFFFFFFF, 0x100000001]
 class C19(Prop):
     id = "C19"
     title = "Cross-thread notifications are never lost or merged; shutdown terminates"
-    lean_modules = ["NV.C19.Props", "NV.C19.PropsExt", "NV.C19.Global", "NV.C19.Witness", "NV.C19.WitnessPoll",
-                    "NV.C19.Negative"]
+    lean_modules = ["NV.C19.Props", "NV.C19.PropsExt", "NV.C19.BlockedCounters", "NV.C19.Global", "NV.C19.Witness",
+                    "NV.C19.WitnessPoll", "NV.C19.Negative"]
     theorems = ["NV.C19.model_satisfies_spec", "NV.C19.posts_delivered_exactly_once", "NV.C19.posts_multiset_preserved",
                 "NV.C19.post_refused_only_when_full", "NV.C19.no_lost_wakeup",
                 "NV.C19.createProg_eq", "NV.C19.wrapper_stores_eq", "NV.C19.wait_order_eq", "NV.C19.post_order_eq",
@@ -27,6 +27,7 @@ class C19(Prop):
                 "NV.C19.hb_protocol_eq", "NV.C19.join_loop_eq",
                 # ... and the theorems over all schedules
                 "NV.C19.bell_value_irrelevant", "NV.C19.blocked_writers_fifo_exactly_once",
+                "NV.C19.blocked_writers_counters",
                 "NV.C19.no_writer_left_asleep", "NV.C19.waiting_writer_wakes", "NV.C19.woken_writer_pushes",
                 "NV.C19.drained_queue_releases_a_writer", "NV.C19.drop_oldest_never_blocks",
                 "NV.C19.console_worker_exits_after_stop", "NV.C19.console_worker_hangs_on_block_writer_queue",
@@ -709,6 +710,8 @@ class C19(Prop):
                 h[key] = h.get(key, 0) + 1
             if "#tsan" in c.lines:
                 h["tsan-cases"] = h.get("tsan-cases", 0) + 1
+            if "#poll" in c.lines:
+                h["poll-backend-cases"] = h.get("poll-backend-cases", 0) + 1
         return h
 
 
